@@ -2,6 +2,7 @@
 
 import numpy as np
 from scipy.sparse import csr_array
+from scipy.sparse import kron as sparse_kron
 
 from toqito.matrix_ops import tensor
 
@@ -114,4 +115,10 @@ def pauli(ind: int | str | list[int] | list[str], is_sparse: bool = False) -> np
     pauli_mats = []
     for i in range(num_qubits):
         pauli_mats.append(pauli(ind[i], is_sparse))
+    if is_sparse:
+        # `np.kron` (used by `tensor`) does not form the Kronecker product of sparse arrays.
+        result = pauli_mats[0]
+        for mat in pauli_mats[1:]:
+            result = csr_array(sparse_kron(result, mat))
+        return result
     return tensor(pauli_mats)
